@@ -11,7 +11,8 @@
 
    The tie to the Go source is the inventory gen/Globals.v, regenerated on every run by
    harness/xlate/globals.go: [pkg_var_writes] lists every place where a function of in_toto
-   modifies a package-level variable. *)
+   modifies a package-level variable, [pkg_process_state_calls] every call that changes process-global
+   state (os.Chdir, os.Setenv, syscall.Umask, signal.Notify, log.SetOutput, rand.Seed, ...). *)
 From IT Require Import model.Base model.Conc proofs.ConcProofs proofs.ConcLibrary gen.Globals.
 Local Open Scope nat_scope.
 
@@ -25,6 +26,12 @@ Proof. reflexivity. Qed.
 (* no package-level variable of reference type leaks into a local / argument / result, through which
    it could be modified without the inventory seeing it *)
 Theorem globals_no_escape : pkg_var_escapes = [].
+Proof. reflexivity. Qed.
+
+(* no function body of in_toto calls something that changes state of the whole process (working directory,
+   environment, umask, signal dispositions, default logger, global rand, default HTTP mux, global flags,
+   runtime knobs): such state is shared by all goroutines although no Go variable is involved *)
+Theorem globals_no_process_state_calls : pkg_process_state_calls = [].
 Proof. reflexivity. Qed.
 
 (* ---- the property ---- *)
@@ -51,7 +58,7 @@ Theorem C16_library_calls_serializable :
   Permutation order (seq 0 (length ts)) ->
   results (run sched (s0, ts)) = results (seq_run order (s0, ts))
   /\ forall g, fst (run sched (s0, ts)) g = s0 g /\ fst (seq_run order (s0, ts)) g = s0 g.
-Proof. exact (library_calls_serializable globals_written_empty). Qed.
+Proof. exact (library_calls_serializable globals_written_empty globals_no_process_state_calls). Qed.
 Print Assumptions C16_library_calls_serializable.
 
 (* No need to wait for the others: at any point of any interleaving a call that has returned has
@@ -62,7 +69,7 @@ Theorem C16_returned_call_has_sequential_result :
   nth_error ts i = Some p ->
   nth_error (snd (run sched (s0, ts))) i = Some (Done r) ->
   r = snd (exec s0 p).
-Proof. exact (library_call_result_fixed globals_written_empty). Qed.
+Proof. exact (library_call_result_fixed globals_written_empty globals_no_process_state_calls). Qed.
 Print Assumptions C16_returned_call_has_sequential_result.
 
 (* The general commutation theorem behind it (disjoint footprints): calls may write shared variables as
